@@ -636,6 +636,12 @@ def mutant_ops(rng, count):
                     e = e[:pos] + bytearray(gen.rand_bytes(rng, rng.randint(0, 3)))
             b = bytes(e)
         ops.append(f"dec skip {gen.hexb(b)} #mut=1")
+    # ill-formed nests that are long rather than random: an indefinite string whose chunks are again indefinite strings
+    # (RFC 8949 3.2.3 forbids it; skip must refuse at the first inner head, not descend), heads repeated d times
+    for d in (2, 3, 100, 1000, 5000, 20000):
+        for hx in ("5f" * d, "7f" * d, "5f" * d + "ff" * d, "7f" * d + "41ff" + "ff" * d, "9f" + "5f" * d, "bf00" + "7f" * d,
+                   "82" + "5f" * d + "ff" * d + "00", "5f40" * d, "7f60" * d + "ff"):
+            ops.append(f"dec skip {hx} #mut=1")
     return ops
 
 
